@@ -31,6 +31,29 @@ STRENGTHENED = {
     'C19-F': 'part Q also with gc_batch_size 2',
     'C20-D': 'hostile structured tensor-train values (size fields replaced along the rank chain)',
     'C01-F': '5-voter rival-candidates seed under pre-vote; driver glue also broadcasts when a candidate re-runs',
+    'C01-G': 'hook carries the fast-path history; seed with a stale follower about to be repaired on the fast path',
+    'C01-H': 'rival-candidates seed also without pre-vote (async election path)',
+    'C02-H': 'ordinary keys that merely start with the letters _cache',
+    'C03-G': 'C13: second recover() after the prepare timeout must not reverse a commit decision (caught by C13)',
+    'C04-H': 'every public read/aggregate entry point incl. count_column driven through the enumeration',
+    'C06-G': 'engine configurations (parallel threshold 2) so that the parallel search paths run on tiny stores',
+    'C06-H': 'engine configuration max_keys_per_scan, clear() in the alphabet',
+    'C08-G': 'checkpoint names in a prefix relation',
+    'C08-H': 'query cache on + async text entry point',
+    'C09-G': 'hash and ordered indexes on the _id column',
+    'C10-G': 'async election with a transport that refuses the broadcast',
+    'C11-G': 'value-carrying scan (scan_filter_map) in the alphabet',
+    'C11-H': 'Bloom-filtered durable store; lock releases as scheduling points for these programs',
+    'C12-G': 'remove_wait and the rest of the public wait-graph API in the sequential alphabet',
+    'C12-H': 'coordinator on a TxWal whose size cap makes each append fail in turn',
+    'C13-G': 'log checkpoint (truncate_wal at a quiescent moment) followed by new transactions',
+    'C13-H': 'vote from a non-participant shard',
+    'C15-H': 'C3 also through execute_parsed_async',
+    'C16-G': 're-open of the chain on the same store, incl. after every crash point inside append',
+    'C17-G': 'part C2: add_peer after the member was learned through gossip',
+    'C17-H': 'part C2: Suspect naming a higher incarnation, suspicion timeout + gossip_round',
+    'C18-H': 'graphs built through batch_create_edges as well (C05 catches it too)',
+    'C19-G': 'put options (empty content type etc.) in the alphabet',
 }
 
 def main():
